@@ -52,6 +52,36 @@ class RetVar(ast.NodeTransformer):
         return out
 
 
+class Invert(ast.NodeTransformer):
+    """`if c: A else: B`  ->  `if not c: B else: A`   (only plain if/else, not elif chains)"""
+
+    def visit_If(self, node):
+        self.generic_visit(node)
+        if node.orelse and not (len(node.orelse) == 1 and isinstance(node.orelse[0], ast.If)):
+            test = node.test.operand if isinstance(node.test, ast.UnaryOp) and isinstance(node.test.op, ast.Not) else ast.UnaryOp(op=ast.Not(), operand=node.test)
+            return ast.copy_location(ast.If(test=ast.copy_location(test, node.test), body=node.orelse, orelse=node.body), node)
+        return node
+
+
+class Keywords(ast.NodeTransformer):
+    """calls of plain functions defined in the same module: positional arguments become keyword arguments"""
+
+    def __init__(self, tree):
+        self.sigs = {}
+        for s_ in tree.body:
+            if isinstance(s_, ast.FunctionDef) and not s_.args.vararg and not s_.args.posonlyargs and not s_.decorator_list:
+                self.sigs[s_.name] = [a.arg for a in s_.args.args]
+
+    def visit_Call(self, node):
+        self.generic_visit(node)
+        if isinstance(node.func, ast.Name) and node.func.id in self.sigs and node.args and not any(isinstance(a, ast.Starred) for a in node.args):
+            names = self.sigs[node.func.id]
+            if len(node.args) <= len(names) and not any(k.arg in names[: len(node.args)] for k in node.keywords if k.arg):
+                kws = [ast.keyword(arg=n, value=a) for n, a in zip(names, node.args)]
+                return ast.copy_location(ast.Call(func=node.func, args=[], keywords=kws + node.keywords), node)
+        return node
+
+
 def shuffle(tree):
     body, out, run = tree.body, [], []
     for s in body + [None]:
@@ -79,7 +109,8 @@ def main():
             p = os.path.join(dp, f)
             src = open(p).read()
             tree = ast.parse(src)
-            tree = {"nest": lambda t: Nest().visit(t), "retvar": lambda t: RetVar().visit(t), "shuffle": shuffle}[mode](tree)
+            tree = {"nest": lambda t: Nest().visit(t), "retvar": lambda t: RetVar().visit(t), "shuffle": shuffle,
+                    "invert": lambda t: Invert().visit(t), "kw": lambda t: Keywords(t).visit(t)}[mode](tree)
             out = ast.unparse(ast.fix_missing_locations(tree))
             compile(out, p, "exec")
             open(p, "w").write(out)
